@@ -4,7 +4,7 @@ CANON = True
 import ast
 import re
 
-from .. import pyq
+from .. import pm, pyq
 from ..pysrc import dotted, fold, norm, flat
 
 REL = "hy/reader/mangling.py"
@@ -67,7 +67,7 @@ def check(ctx, src):
     t = flat(mg)
     ctx.check("unicodedata.name(c, '').lower().replace('-', 'H').replace(' ', '_') or 'U{:x}'.format(ord(c))" in t, "MANGLE-INVERSE", f"{REL}|mangle|escape text", "mangle's escape text changed", REL, mg.lineno, detail="name.lower() -→H ␠→_ | U%x")
     ctx.check("'{0}{1}{0}'.format(MANGLE_DELIM," in t and "s = 'hyx_' + ''.join(" in t, "MANGLE-INVERSE", f"{REL}|mangle|delimiters", "escapes must be wrapped in MANGLE_DELIM and the result prefixed with hyx_", REL, mg.lineno, detail="X…X, hyx_")
-    ctx.check("c if c != MANGLE_DELIM and ('S' + c).isidentifier()" in t, "MANGLE-INVERSE", f"{REL}|mangle|delimiter escaped", "a literal delimiter character must itself be escaped", REL, mg.lineno, witness="a name containing X does not round-trip", detail="c != MANGLE_DELIM")
+    ctx.check(pm.find(mg, "c if c != MANGLE_DELIM and ('S' + c).isidentifier() else __") is not None, "MANGLE-INVERSE", f"{REL}|mangle|delimiter escaped", "a literal delimiter character must itself be escaped", REL, mg.lineno, witness="a name containing X does not round-trip", detail="c != MANGLE_DELIM")
     tu = flat(um)
     ctx.check("chr(int(mo.group(2), base=16)) if mo.group(1) else unicodedata.lookup(mo.group(2).replace('_', ' ').replace('H', '-').upper())" in tu, "MANGLE-INVERSE", f"{REL}|unmangle|decode", "unmangle's decoding is not the inverse of mangle's escape text",
               REL, um.lineno, detail="hex base 16 | '_'→' ', 'H'→'-', upper")
